@@ -183,12 +183,16 @@ def run_lasso_js(res, qs, tabs):
             H = len(T) * (n + 2) + 2
             batch.append({'op': 'lasso', 'query': refql.render(q, 'js'), 'table': T, 'horizon': H})
             meta.append((q, T, exp, H))
+            batch.append({'op': 'lasso', 'query': refql.render(q, 'js'), 'table': T, 'horizon': H, 'plain': True})      # the user's own minimal iterator class
+            meta.append((q, T, exp, H))
     outs = js.run_batch(batch)
     for (q, T, exp, H), c, out in zip(meta, batch, outs):
         res.evaluations += 1
         res.traces += 1
         res.feat('lasso_executions_js')
-        case = {'kind': 'lasso-js', 'query': c['query'], 'T': T, 'horizon': H}
+        case = {'kind': 'lasso-js', 'query': c['query'], 'T': T, 'horizon': H, 'own_minimal_iterator_class': bool(c.get('plain'))}
+        if c.get('plain'):
+            res.feat('lasso_js_own_iterator_class')
         if out.get('horizon'):
             res.violation('js:bounded-query-does-not-stop', case, {'records': exp.records, 'pulls': exp.pulled}, out, 'query kept pulling past the horizon')
         elif 'error' in out:
@@ -281,7 +285,7 @@ def main(tier, seed):
              'non-trivial = ties in the sort key, duplicates actually removed, or n smaller than the unbounded result (A) / bound reached exactly (B)',
         assumptions=['sort keys are mutually comparable strings', 'RefQL models a bounded streaming query as stopping at the bound', 'B: cases whose n-th output never appears are skipped (the query legitimately waits)'],
         extra={'queries_A': len(sp_['qs']), 'queries_B': len(ls['qs'])},
-        min_features={'distinct_records_equal_as_text_only': 50, 'sort_ties': 1000, 'duplicates_removed': 1000, 'truncating': 1000, 'lasso_executions': 500})
+        min_features={'distinct_records_equal_as_text_only': 50, 'sort_ties': 1000, 'duplicates_removed': 1000, 'truncating': 1000, 'lasso_executions': 500, 'lasso_js_own_iterator_class': 100})
 
 
 def replay(rep):
